@@ -40,6 +40,8 @@ Mut(k, a) == [k |-> k, a |-> a]
 Muts == { Mut("trunc", n) : n \in 0..12 } \cup { Mut("cutend", n) : n \in 1..4 }
         \cup { Mut("setid", x) : x \in IdDomain } \cup { Mut("flip", p) : p \in 0..15 }
         \cup { Mut("tail", n) : n \in 1..3 } \cup { Mut("rewrap", n) : n \in 1..2 }
+        \cup { Mut("lenbomb", k) : k \in 0..7 }     \* payload replaced by a collection header that declares a huge length
+        \cup { Mut("nest", k) : k \in {2, 4, 7} }   \* payload wrapped into 10^k one-element collections
 InnerMuts == { Mut("innerid", x) : x \in IdDomain } \cup { Mut("innertrunc", n) : n \in 0..3 }
              \cup { Mut("gzhdr", p) : p \in 0..9 }
 
